@@ -188,6 +188,24 @@ def examine(case):
                 out.append(V('better-grades-higher', ['grade-monotone'], dict(base, perf=p), [prev, gr[1]]))
                 break
             prev = gr[1]
+        if year != 'athlon':
+            # the table year in its other carriers (text, left out): whichever table such a carrier selects, the three entry
+            # points select the SAME one - the grade still equals best / factor / performance taken with that same argument
+            p = perfs[len(perfs) // 2]
+            for kw in ({'year': str(year)}, {}):
+                fb = call(athlib.wma_world_best, g, event, **kw)
+                ff = call(athlib.wma_age_factor, g, age, event, **kw)
+                fg = call(athlib.wma_age_grade, g, age, event, p, **kw)
+                if fb[0] == 'ret' and ff[0] == 'ret' and ff[1] and fg[0] == 'ret':
+                    want = ((fb[1] / ff[1]) / p) if timed else (p / (fb[1] / ff[1]))
+                    if not math.isclose(fg[1], want, rel_tol=1e-12):
+                        out.append(V('grade-equals-standard-ratio', ['grade-value', 'year-as-text' if kw else 'year-left-out'],
+                                     dict(base, perf=p, year_arg=kw.get('year', 'omitted')), fg[1], want))
+                        break
+                elif fg[0] != ff[0] or fg[0] != fb[0]:
+                    out.append(V('grade-defined', ['entry-points-disagree', 'year-as-text' if kw else 'year-left-out'],
+                                 dict(base, perf=p, year_arg=kw.get('year', 'omitted')), [fb[:2], ff[:2], fg[:2]]))
+                    break
         if f == 1:
             g1 = f_grade(year, g, age, event, best)
             if g1 != ('ret', 1.0):
